@@ -20,6 +20,7 @@ void codec_reset(void)
    if (dec_dts) bufr_free_dataset(dec_dts);
    dec_dts = NULL;
    }
+BUFR_Dataset *bvp_dec_dts(void) { return dec_dts; }
 void codec_reset_all(void) { codec_reset(); free(last_s4); last_s4 = NULL; last_len = 0; }
 
 static void fmt_val(BufrDescriptor *b)
@@ -335,8 +336,25 @@ static int dd_merge(int argc, char **argv)
    return 0;
    }
 
+/* ds.decodemsg <hex>: the whole pipeline on raw bytes: bufr_memread_message then bufr_decode_message */
+static int ds_decodemsg(int argc, char **argv)
+   {
+   unsigned char *buf; int n; BUFR_Message *m = NULL; int rc;
+   if (argc != 2 || !cur_tables || (n = bvp_parse_hex(argv[1], &buf)) < 0) { fputs("bad-op", bvp_out); return 0; }
+   codec_reset();
+   rc = bufr_memread_message((char *)buf, n, &m);
+   if (rc <= 0 || !m) { fprintf(bvp_out, "noread"); if (m) bufr_free_message(m); free(buf); return 0; }
+   dec_dts = bufr_decode_message(m, cur_tables);
+   fprintf(bvp_out, "read %d ", rc);
+   bufr_free_message(m);
+   free(buf);
+   if (!dec_dts) { fputs("null", bvp_out); return 0; }
+   fprintf(bvp_out, "ok %d %d", (dec_dts->data_flag & BUFR_FLAG_INVALID) ? 1 : 0, bufr_count_datasubset(dec_dts));
+   return 0;
+   }
+
 struct op_entry ops_codec[] = {
    { "ss.vals", ss_vals }, { "ss.setraw", ss_setraw }, { "ss.setstr", ss_setstr },
    { "ss.fill", ss_fill }, { "ds.encode", ds_encode }, { "ds.decode", ds_decode }, { "ds.decodelast", ds_decodelast }, { "dd.list", dd_list }, { "dd.vals", dd_vals },
-   { "dd.tocur", dd_tocur }, { "dd.merge", dd_merge },
+   { "dd.tocur", dd_tocur }, { "dd.merge", dd_merge }, { "ds.decodemsg", ds_decodemsg },
    { NULL, NULL } };
